@@ -5,6 +5,8 @@ maximal: additionally everything a defensible reading could pull in.
 The gap between the two is where the statement is ambiguous (nothing judged)."""
 import re
 
+from ..gen.model import ref as gm_ref
+
 DOC_REF = re.compile(r':(?P<tag>[A-Za-z]+):`(?P<val>.*?)`')
 
 
@@ -79,6 +81,12 @@ class Closure:
                 continue
             if d.kind in ('struct', 'union'):
                 self.add_type(d, via + ':type_ref' + ('_foreign' if n != ns else ''))
+            elif d.kind == 'alias' and self.maximal:
+                # :field:`Alias.f` names the type only through the alias: keeping the
+                # type is defensible, the statement does not demand it
+                tgt = self.m.target(gm_ref(n, name))
+                if tgt is not None:
+                    self.add_type(tgt, via + ':field_ref_via_alias')
         for (n, name, v) in rs:
             r = [x for x in self.m.ns(n).defs if x.kind == 'route' and x.name == name and x.version == v]
             if r:
